@@ -1286,6 +1286,9 @@ class Explorer:
                 # the outcome depends on something the engine cannot interpret: facts derived below this point are over-approximations
                 s = State(dict(s.env), True, s.trail)
                 s.env[("flag", "approx")] = True
+                if self.depends_on_assumption(t.ops[0], through_phis=True):
+                    # ... and that something is computed from an assumed value (rules about the assumed value itself use this finer flag)
+                    s.env[("flag", "approx_dep")] = True
             for truth, dest in ((True, tb), (False, fb)):
                 envs = self.refine(t.ops[0], truth, s.env)
                 if envs and self.eval(t.ops[0], s.env) is not None and singleton(self.eval(t.ops[0], s.env)) is None \
